@@ -49,8 +49,42 @@ def _env(target):
     e = dict(os.environ)
     e['CARGO_NET_OFFLINE'] = 'true'
     e['CARGO_TARGET_DIR'] = os.path.join(CACHE, target)
+    e['CARGO_INCREMENTAL'] = '0'
     e.pop('RUSTFLAGS', None)
     return e
+
+
+def prune_cache(target, max_age_s=1800):
+    """every run compiles the txtpp crate from a fresh scratch path, so its artefacts pile up in the shared target
+    directory; drop those (and only those) that no run of the last half hour can still need"""
+    now = time.time()
+    for prof in ('debug', 'release'):
+        base = os.path.join(CACHE, target, prof)
+        inc = os.path.join(base, 'incremental')
+        if os.path.isdir(inc):
+            for d in os.listdir(inc):
+                p = os.path.join(inc, d)
+                try:
+                    if now - os.path.getmtime(p) > max_age_s:
+                        shutil.rmtree(p, ignore_errors=True)
+                except OSError:
+                    pass
+        for sub in ('deps', '.fingerprint'):
+            dd = os.path.join(base, sub)
+            if not os.path.isdir(dd):
+                continue
+            for f in os.listdir(dd):
+                if not (f.startswith(('txtpp', 'libtxtpp', 'modelcheck', 'libmodelcheck'))):
+                    continue
+                p = os.path.join(dd, f)
+                try:
+                    if now - os.path.getmtime(p) > max_age_s:
+                        if os.path.isdir(p):
+                            shutil.rmtree(p, ignore_errors=True)
+                        else:
+                            os.remove(p)
+                except OSError:
+                    pass
 
 
 def mir_dump(repo, kind='lib'):
@@ -75,6 +109,7 @@ def mir_dump(repo, kind='lib'):
         sys.stderr.write(r.stderr[-4000:])
         raise RuntimeError("MIR dump failed (%s)" % kind)
     open(out, 'w').write(r.stdout)
+    prune_cache('target-mir')
     return r.stdout
 
 
@@ -93,6 +128,7 @@ def build_native(repo, release=False):
     if r.returncode != 0:
         sys.stderr.write(r.stderr[-6000:])
         raise RuntimeError("native build failed")
+    prune_cache('target-replay')
     prof = 'release' if release else 'debug'
     d = os.path.join(CACHE, 'target-replay', prof)
     return {'replay': os.path.join(d, 'txtpp-replay'), 'txtpp': os.path.join(d, 'txtpp')}
